@@ -320,7 +320,7 @@ func addClause(c *Contract, kind string, loop int, text, file string, line int) 
 	switch kind {
 	case "preserves":
 		for _, part := range splitTop(strings.TrimSpace(text), ',') {
-			e, err := ParseExpr(part)
+			e, err := parseModEntry(part)
 			if err != nil {
 				return fmt.Errorf("preserves %q: %v", part, err)
 			}
@@ -336,7 +336,7 @@ func addClause(c *Contract, kind string, loop int, text, file string, line int) 
 			cl.Star = true
 		} else {
 			for _, part := range splitTop(t, ',') {
-				e, err := ParseExpr(part)
+				e, err := parseModEntry(part)
 				if err != nil {
 					return fmt.Errorf("modifies %q: %v", part, err)
 				}
@@ -973,4 +973,14 @@ func matchParen(s string, i int) int {
 		}
 	}
 	return -1
+}
+
+// parseModEntry: an entry of a modifies / preserves clause; fields(<type>) takes a
+// type name (possibly a full import path), not an expression.
+func parseModEntry(part string) (Expr, error) {
+	p := strings.TrimSpace(part)
+	if strings.HasPrefix(p, "fields(") && strings.HasSuffix(p, ")") {
+		return &ECall{Fun: &EIdent{Name: "fields"}, Args: []Expr{&EIdent{Name: strings.TrimSpace(p[7 : len(p)-1])}}}, nil
+	}
+	return ParseExpr(p)
 }
